@@ -34,14 +34,21 @@ def _gen(task):
                 if z3.is_true(sp):
                     base.update(status='unsat', backend='simplifier', time=0.0, smt2=None)
                 else:
-                    base['smt2'] = solve.to_smt2(o.hyp, p)
+                    hyp2, p2 = solve.skolemize(o.hyp, p)
+                    base['smt2'] = solve.to_smt2(hyp2, p2)
+                    qf = [h for h in hyp2 if not solve.has_quantifier(h)]
+                    base['smt2_relaxed'] = solve.to_smt2(qf, p2) if len(qf) < len(hyp2) else None
                 vcs.append(base)
         covers = []
         for c in g.covers:
             s = z3.Solver()
             for h in c['hyp']:
                 s.add(h)
-            covers.append(dict(id=c['id'], what=c['what'], smt2=s.to_smt2(), fn=fname, file=relpath))
+            s2 = z3.Solver()
+            for h in c['hyp']:
+                if not solve.has_quantifier(h):
+                    s2.add(h)
+            covers.append(dict(id=c['id'], what=c['what'], smt2=s.to_smt2(), smt2_relaxed=s2.to_smt2(), fn=fname, file=relpath))
         # vacuity guard (a): requires satisfiable
         s = z3.Solver()
         for h in g.assumes[:g.n_requires_hyp]:
@@ -59,6 +66,48 @@ def _gen(task):
         return dict(ok=False, fn=fname, file=relpath, error='crash', detail=traceback.format_exc())
 
 
+def _gen_lemmas(task):
+    """file-level lemmas over spec functions: standalone VCs"""
+    relpath, consts = task
+    from .cexpr import SymEnv, I, R
+    cfile = contract.REGISTRY[relpath]
+    out = []
+    for lm in cfile.lemmas:
+        try:
+            g = engc.VCGen(dict(functions={}, protos={}, relpath=relpath), cfile, consts)
+            g.assumes = []; g.ghostfuns = {}; g.ghost_level = {}
+            binds = {}
+            for nm, srt in lm['decl']:
+                nm = nm.strip(); srt = srt.strip()
+                binds[nm] = z3.Int(nm) if srt == 'int' else z3.Real(nm)
+            st = engc.State()
+            env = SymEnv(g, st, binds)
+            pre = env.boolean(lm['pre']); goal = env.boolean(lm['stmt'])
+            for i, p in enumerate(solve.split_goal(goal)):
+                vid = '%s/lemma/%s#%d' % (relpath.split('/')[-1], lm['name'], i)
+                out.append(dict(id=vid, kind='lemma', fn='(lemma) ' + lm['name'], line=0, note='lemma %s: %s' % (lm['name'], lm['stmt']), text=lm['stmt'],
+                                file=relpath, smt2=solve.to_smt2(list(g.assumes) + [pre], p), smt2_relaxed=None))
+        except Exception:
+            return dict(ok=False, fn='(lemma) ' + lm['name'], file=relpath, error='crash', detail=traceback.format_exc())
+    return dict(ok=True, vcs=out)
+
+
+def prove_lemmas(relpaths, timeout_ms=10000, consts=None):
+    vcs = []; failed = []
+    for r in relpaths:
+        g = _gen_lemmas((r, consts or {}))
+        if not g['ok']:
+            failed.append(g)
+        else:
+            vcs += g['vcs']
+    res = {r['id']: r for r in solve.solve_all([(v['id'], v['smt2'], timeout_ms, False, None) for v in vcs])}
+    for v in vcs:
+        r = res[v['id']]
+        v.update(status=r['status'], backend=r['backend'], time=r['time'], model=None, reason=r.get('reason', ''))
+        v.pop('smt2', None)
+    return dict(vcs=vcs, failed=failed)
+
+
 def prove(tasks, timeout_ms=10000, consts=None):
     """tasks: list of (relpath, function).  Returns dict(functions=[...], vcs=[...], covers=[...])"""
     load_tus(sorted({r for r, _ in tasks}))
@@ -71,7 +120,7 @@ def prove(tasks, timeout_ms=10000, consts=None):
         if not g['ok']:
             failed.append(g); continue
         vcs += g['vcs']; covers += g['covers'] + [g['reqsat']]
-    todo = [(v['id'], v['smt2'], timeout_ms, True) for v in vcs if v.get('smt2')]
+    todo = [(v['id'], v['smt2'], timeout_ms, True, v.get('smt2_relaxed')) for v in vcs if v.get('smt2')]
     t1 = time.time()
     res = {r['id']: r for r in solve.solve_all(todo)}
     for v in vcs:
@@ -79,8 +128,8 @@ def prove(tasks, timeout_ms=10000, consts=None):
             r = res[v['id']]
             v.update(status=r['status'], backend=r['backend'], time=r['time'], model=r.get('model'), reason=r.get('reason', ''))
     # covers: must be satisfiable (reachable); `unknown` is tolerated (quantified hypotheses), `unsat` is a broken contract
-    cres = solve.solve_all([(c['id'], c['smt2'], min(timeout_ms, 5000), False) for c in covers])
+    cres = solve.solve_all([('cover', c['id'], c['smt2'], c.get('smt2_relaxed')) for c in covers])
     for c, r in zip(covers, cres):
-        c['status'] = r['status']; c['time'] = r['time']; c.pop('smt2', None)
+        c['status'] = r['status']; c['time'] = r['time']; c.pop('smt2', None); c.pop('smt2_relaxed', None)
     tsolve = time.time() - t1
     return dict(functions=[g['info'] for g in gens if g['ok']], failed=failed, vcs=vcs, covers=covers, gen_s=tgen, solve_s=tsolve)
